@@ -128,6 +128,9 @@ OnEnd(e) == Result(st, Chk(e.leaf_live = 0 /\ st.leafLive = {}, "C09", "Everythi
 Apply(e) ==
   CASE e.e = "comp" -> OnComp(e)
     [] e.e = "fill" -> Result(st, {})
+    \* move assignment into a differently configured object and move construction back: no request may reach
+    \* a leaf or tracker, nothing may be thrown; the calls that follow are judged as before
+    [] e.e = "xfer" -> Result(st, Chk(e.r = "ok", "C09", "MoveOfAdapterNeverThrows", <<e.r>>))
     [] e.e = "call" -> OnCall(e)
     [] e.e = "leaf" -> OnLeaf(e)
     [] e.e = "trk" -> OnTrk(e)
